@@ -1053,6 +1053,24 @@ def manual_seed(seed):
     RNG.seeds.append(("cpu", seed))
 
 
+def seed():
+    """torch.seed(): re-seeds the generator from entropy and returns that seed"""
+    RNG.seeds.append(("cpu", "entropy"))
+    return 1234567
+
+
+def initial_seed():
+    return RNG.seeds[-1][1] if RNG.seeds else 0
+
+
+def get_rng_state():
+    return tensor([0])
+
+
+def set_rng_state(state):
+    RNG.seeds.append(("cpu", "state"))
+
+
 def randn(*shape, dtype=None, device=None, requires_grad=False):
     return Tensor(_raw=RNG.randn(_shape(shape)), dtype=dtype or _default_dtype)
 
